@@ -55,6 +55,8 @@ Items ==
   CASE unk = "none" -> k
     [] unk = "before" -> <<UnkItem(1)>> \o k
     [] unk = "after" -> k \o <<UnkItem(1)>>
+    [] unk = "tiny" -> <<[cc |-> <<102, 114, 101, 101>>, raw |-> <<>>]>> \o k
+                         \o <<[cc |-> <<122, 122, 122, 122>>, raw |-> <<1, 2, 3, 4>>], [cc |-> <<102, 114, 101, 101>>, raw |-> <<0, 0, 0>>]>>
     [] unk = "between" -> (IF Len(k) > 0 THEN <<k[1]>> ELSE <<>>) \o <<UnkItem(1), UnkItem(2)>> \o (IF Len(k) > 0 THEN Tail(k) ELSE <<>>)
 
 ShapeV == [ mdir |-> [present |-> "full", fullbox |-> TRUE, handler |-> MDIR],
